@@ -211,7 +211,7 @@ func TestDifferential(t *testing.T) {
 			return len(set) >= 2
 		},
 		Classes: func(c diffCase) []string { return []string{c.Source} },
-		Quick:   8000, Thorough: 200000,
+		Quick:   8000, Thorough: 120000,
 	})
 }
 
